@@ -13,6 +13,9 @@ import PybropsModel.Lemmas.StoreCopyLemmas
 import PybropsModel.Lemmas.StoreVcfLemmas
 import PybropsModel.Lemmas.StoreFrameLemmas2
 import PybropsModel.Lemmas.StoreGraphLemmas
+import PybropsModel.Lemmas.StoreSpecLemmas
+import PybropsModel.Lemmas.StoreVcfSpec
+import PybropsModel.Lemmas.StoreFrameK
 set_option autoImplicit false
 
 namespace C16
@@ -114,6 +117,102 @@ theorem fromHdf5_some (sch : Schema) (f : File) (s : String) (hs : s.isEmpty = f
     fromHdf5 sch f (some s) = fromHdf5At sch f (parsePath s) := by
   simp [fromHdf5, fromHdf5At, fromHdf5G, chk, hs, hm]
 
+/-- **Named groups.**  `from_hdf5(file, "g")` first demands that the group exists.  Under the hypotheses
+    of `hdf5_last_write_wins`, an object that stores at least one array (every class but the
+    parameter-free `TruePhenotyping` has a mandatory one) makes its group exist, so the call with the group
+    *name* — any spelling `s` of the path — returns exactly the object written there last. -/
+theorem hdf5_named_group_roundtrip (sch : Schema) (H1 H2 : List Write) (w : Write) (s : String)
+    (hpf : PrefixFree (Touched (H1 ++ w :: H2))) (hnb : ∀ w' ∈ H1 ++ w :: H2, NoBad w'.obj)
+    (hkeys : (sch.fields.map (·.key)).Nodup) (hun : Unreached w H2)
+    (hv : valid sch w.obj = true) (hs : s.isEmpty = false) (hp : parsePath s = w.g)
+    (hdata : ∃ k d, (k, Item.data d) ∈ w.obj) :
+    ∃ f, runHist [] (H1 ++ w :: H2) = (f, none) ∧ fromHdf5 sch f (some s) = .ok w.obj := by
+  have hv' : validG true sch w.obj = true := hv
+  have hc : conformsG true sch w.obj = true := by
+    unfold validG at hv'; rw [Bool.and_eq_true] at hv'; exact hv'.1
+  obtain ⟨f, h1, h2, h3⟩ := region_after_write H1 H2 w hpf hnb
+    (keysNodup_of_conforms true sch w.obj hc hkeys) hun
+  refine ⟨f, h1, ?_⟩
+  obtain ⟨k, d, hm⟩ := hdata
+  have hmem : mem f (w.g ++ [k]) = true := mem_of_region_data h3 hm
+  have hg : mem f (parsePath s) = true := by
+    rw [hp, mem_eq_true_iff]
+    rcases (mem_eq_true_iff f (w.g ++ [k])).mp hmem with h | ⟨e, he, hpre⟩
+    · exact absurd h (append_singleton_ne_nil w.g k)
+    · exact Or.inr ⟨e, he, (List.prefix_append w.g [k]).trans hpre⟩
+  rw [fromHdf5_some sch f s hs hg, hp]
+  exact fromHdf5At_of_region true sch h2 h3 hv'
+
+/-- **Finding D30 (TruePhenotyping under a named group).**  FULL STATEMENT (false of the as-is model, see
+    counterexample): `∀ s f, fromHdf5 tpSchema (toHdf5 f (some s) true []).1 (some s) = .ok []`.
+    The protocol has no parameter to store: `to_hdf5` writes nothing, so a group that did not exist
+    before still does not exist, and `from_hdf5` with that group name refuses (`LookupError`). -/
+theorem tp_named_group_counterexample (s : String) (f : File) (hs : s.isEmpty = false)
+    (hfresh : mem f (parsePath s) = false) :
+    (toHdf5 f (some s) true []).2 = none ∧
+    fromHdf5 tpSchema (toHdf5 f (some s) true []).1 (some s) = .error .missing := by
+  have hw : toHdf5 f (some s) true [] = (f, none) := by
+    simp [toHdf5, toHdf5G, groupPath, hs, writeItems]
+    rfl
+  rw [hw]
+  refine ⟨rfl, ?_⟩
+  simp [fromHdf5, fromHdf5G, chk, hfresh]
+  rfl
+
+/-- what does hold for the parameter-free protocol: the round trip at the base group (`groupname = None`)
+    and under any group that already exists in the file (e.g. because another object lives below it) -/
+theorem tp_hdf5_roundtrip_partial (f : File) :
+    fromHdf5 tpSchema (toHdf5 f none true []).1 none = .ok [] ∧
+    (∀ s, s.isEmpty = false → mem f (parsePath s) = true →
+      fromHdf5 tpSchema (toHdf5 f (some s) true []).1 (some s) = .ok []) := by
+  constructor
+  · simp [toHdf5, toHdf5G, groupPath, writeItems, fromHdf5, fromHdf5G, fromHdf5AtG, readRaw, checkRequired,
+      readFields, tpSchema]
+    rfl
+  · intro s hs hm
+    have hw : toHdf5 f (some s) true [] = (f, none) := by
+      simp [toHdf5, toHdf5G, groupPath, hs, writeItems]
+      rfl
+    rw [hw, fromHdf5_some tpSchema f s hs hm]
+    simp [fromHdf5At, fromHdf5AtG, readRaw, checkRequired, readFields, tpSchema]
+    rfl
+
+/-! ## the Spec oracle of stored / copied objects (driver op `c16.spec_obj`) -/
+
+/-- **spec_iff.**  The Bool oracle evaluated on the implementation's outputs decides observable equality
+    of two object states: the same field names in the same order, every item equal in dtype, shape and
+    values, dictionaries of the same size with every entry of the first found in the second … -/
+theorem spec_obj_iff (want got : Obj) : StoreSpec.specObj want got = true ↔ StoreSpec.ObsEq want got :=
+  StoreSpec.specObj_iff want got
+
+/-- … which for dictionaries with distinct keys (every Python dictionary) is equality as finite maps -/
+theorem spec_obj_dict_iff (a b : List (String × Option DS))
+    (ha : (StoreSpec.dkeys a).Nodup) (hb : (StoreSpec.dkeys b).Nodup) :
+    StoreSpec.dictEq a b = true ↔ ∀ k, a.lookup k = b.lookup k :=
+  StoreSpec.dictEq_iff_same_map a b ha hb
+
+/-- **spec_sound (HDF5).**  Under the hypotheses of `hdf5_last_write_wins` the oracle accepts what the
+    model reads back at `w.g` against the object written there last: what the check demands of the
+    implementation on every case is what the theorem establishes for the model. -/
+theorem hdf5_spec_sound (sch : Schema) (H1 H2 : List Write) (w : Write)
+    (hpf : PrefixFree (Touched (H1 ++ w :: H2))) (hnb : ∀ w' ∈ H1 ++ w :: H2, NoBad w'.obj)
+    (hkeys : (sch.fields.map (·.key)).Nodup) (hun : Unreached w H2)
+    (hv : valid sch w.obj = true) :
+    ∃ f o', runHist [] (H1 ++ w :: H2) = (f, none) ∧ fromHdf5At sch f w.g = .ok o' ∧
+      StoreSpec.specObj w.obj o' = true := by
+  obtain ⟨f, h1, h2⟩ := hdf5_last_write_wins sch H1 H2 w hpf hnb hkeys hun hv
+  have hv' : validG true sch w.obj = true := hv
+  have hc : conformsG true sch w.obj = true := by
+    unfold validG at hv'; rw [Bool.and_eq_true] at hv'; exact hv'.1
+  exact ⟨f, w.obj, h1, h2, StoreSpec.specObj_refl w.obj (StoreSpec.dictsNodup_of_conforms true sch w.obj hc)⟩
+
+/-- non-vacuity: the oracle separates the stale read-back of D8 from the object written last, and
+    accepts a dictionary whose entries come back in another order -/
+example :
+    StoreSpec.specObj Ex.pgPoor Ex.pgStale = false ∧ StoreSpec.specObj Ex.pgPoor Ex.pgPoor = true ∧
+    StoreSpec.dictEq [("k", some (mkInt 5)), ("lam", some (mkInt 1))] [("lam", some (mkInt 1)), ("k", some (mkInt 5))] = true := by
+  decide +kernel
+
 /-! ## HDF5: the classes -/
 
 /-- field names of every schema are distinct (side condition of the theorems above) -/
@@ -121,16 +220,19 @@ theorem schema_keys_nodup :
     (pgmatSchema.fields.map (·.key)).Nodup ∧ (gmatSchema.fields.map (·.key)).Nodup ∧
     (bvmatSchema.fields.map (·.key)).Nodup ∧ (cmatSchema.fields.map (·.key)).Nodup ∧
     (vmatSchema.fields.map (·.key)).Nodup ∧ (algSchema.fields.map (·.key)).Nodup ∧
-    (adlgSchema.fields.map (·.key)).Nodup ∧ ((geSchema 2).fields.map (·.key)).Nodup := by
+    (adlgSchema.fields.map (·.key)).Nodup ∧ ((geSchema 2).fields.map (·.key)).Nodup ∧
+    ((vmatKSchema 3).fields.map (·.key)).Nodup ∧ ((vmatKSchema 4).fields.map (·.key)).Nodup ∧
+    (tpSchema.fields.map (·.key)).Nodup := by
   decide +kernel
 
 /-- every class uses its field names consistently: only `hyperparams` is a nested dictionary -/
 theorem schema_typing (sch : Schema)
     (h : sch.fields ∈ [pgmatSchema.fields, bvmatSchema.fields, cmatSchema.fields, vmatSchema.fields,
-      algSchema.fields, adlgSchema.fields, (geSchema 0).fields]) :
+      algSchema.fields, adlgSchema.fields, (geSchema 0).fields, (vmatKSchema 3).fields, (vmatKSchema 4).fields,
+      tpSchema.fields]) :
     ∀ fd ∈ sch.fields, Ex.ty fd.key = (fd.reader == .dict) := by
   simp only [List.mem_cons, List.mem_nil_iff, or_false] at h
-  rcases h with h | h | h | h | h | h | h <;> rw [h] <;> decide +kernel
+  rcases h with h | h | h | h | h | h | h | h | h | h <;> rw [h] <;> decide +kernel
 
 /-- non-vacuity: one valid object per persistable class (grouped, non-ASCII labels, several traits,
     nested hyper-parameters incl. a string value) — `valid` is the hypothesis `hv` above -/
@@ -284,6 +386,38 @@ theorem vmat_unsorted_labels_are_sorted :
   decide +kernel
 
 open StoreFrame in
+/-- **Variance matrices with any number of parental axes, long layout** (three-way: recurrent / female /
+    male, four-way: female2 / male2 / female1 / male1, and their genic twins; the two-way class is k = 2).
+    The matrix is an arbitrary function of index tuples — nothing depends on memory layout.  For every
+    k ≥ 1, n ≥ 1 taxa and t ≥ 1 traits with strictly increasing names, `from_pandas ∘ to_pandas` (group
+    columns on both sides exactly when the matrix has groups) returns the same taxa, groups and traits, and
+    every cell (i₁, …, i_k, c) holds the value written for it — none is left NaN. -/
+theorem kway_vmat_frame_roundtrip {α : Type} (v : KMat α) (wg : Bool)
+    (hs : v.taxa.Pairwise (· < ·)) (ht : v.trait.Pairwise (· < ·))
+    (hn : 0 < v.taxa.length) (htr : 0 < v.trait.length) (hk : 0 < v.k)
+    (hg : ∀ g, v.taxa_grp = some g → g.length = v.taxa.length) (hwg : wg = v.taxa_grp.isSome) :
+    ∃ r, kmFromPandas v.k (kmToPandas v wg) wg = .ok r ∧ r.taxa = v.taxa ∧ r.trait = v.trait ∧
+      r.taxa_grp = v.taxa_grp ∧
+      ∀ ix ∈ tuples v.taxa.length v.k, ∀ c, c < v.trait.length → r.cell ix c = some (v.cell ix c) :=
+  kmFromPandas_toPandas v wg hs ht hn htr hk hg hwg
+
+open StoreFrame in
+/-- non-vacuity: a three-way matrix over two taxa and two traits (16 rows); with the taxa NOT in increasing
+    order the same labelled data come back in sorted label order (cell (b,a,b) of the source is cell
+    (0,1,0) there and (1,0,1) here) -/
+example :
+    let cellOf : List Nat → Nat → Rat := fun ix c => ((ix.foldl (fun a i => 2 * a + i) 0) * 2 + c : Nat)
+    let v : KMat Rat := ⟨3, ["a", "b"], some [7, 9], ["t1", "t2"], cellOf⟩
+    let w : KMat Rat := ⟨3, ["b", "a"], some [7, 9], ["t1", "t2"], cellOf⟩
+    (kmToPandas v true).length = 16 ∧
+    okAnd (kmFromPandas 3 (kmToPandas v true) true)
+      (fun r => r.taxa == ["a", "b"] && r.taxa_grp == some [7, 9] && r.cell [1, 0, 1] 1 == some 11) = true ∧
+    okAnd (kmFromPandas 3 (kmToPandas w true) true)
+      (fun r => r.taxa == ["a", "b"] && r.taxa_grp == some [9, 7] &&
+        r.cell [1, 0, 1] 1 == some (cellOf [0, 1, 0] 1)) = true := by
+  decide +kernel
+
+open StoreFrame in
 /-- **CSV text.**  Cell printing and parsing is an abstract dialect; for every dialect that keeps the
     contract `Lawful` (a printed float / int / label-safe string column is typed and parsed back to
     itself, a `None` column is written as empty cells and read as all-NA) a frame with ≥ 1 row is
@@ -383,6 +517,29 @@ example :
   decide +kernel
 
 open StoreVcf in
+/-- **spec_sound (VCF).**  The decidable Spec that the check evaluates on the implementation's matrix and
+    labels (`c16.spec_vcf`: sample names, shapes, every variant with its chromosome, position, identifier —
+    where the record has one — and column of calls; file order without grouping, a (chromosome, position)-
+    sorted permutation with grouping) accepts the model's output for every file with one phased diploid
+    call per sample, both classes, with and without grouping. -/
+theorem vcf_spec_sound (samples : List String) (recs : List Rec) (hasId : List Bool) (autoGroup phased : Bool)
+    (hrect : ∀ r ∈ recs, r.calls.length = samples.length) :
+    specVcf samples recs hasId autoGroup phased (gotOf (fromVcf samples recs autoGroup)) = true :=
+  specVcf_sound samples recs hasId autoGroup phased hrect
+
+open StoreVcf in
+/-- … and it is not vacuous: it rejects the same import with the identifiers left in file order while the
+    calls were regrouped, and a phased matrix whose two phases are swapped -/
+example :
+    let recs : List Rec := [⟨2, 100, "m1", [(0, 1), (1, 1)]⟩, ⟨1, 300, "m2", [(2, 1), (0, 0)]⟩]
+    let good := gotOf (fromVcf ["a", "b"] recs true)
+    specVcf ["a", "b"] recs [true, true] true true good = true ∧
+    specVcf ["a", "b"] recs [true, true] true true { good with name := ["m1", "m2"] } = false ∧
+    specVcf ["a", "b"] recs [true, true] true true { good with matP := good.matP.reverse } = false ∧
+    specVcf ["a", "b"] recs [false, false] true true { good with name := ["None", "None"] } = true := by
+  decide +kernel
+
+open StoreVcf in
 /-- **VCF text level.**  Decision taken from the property text: records whose identifier is missing
     (`.`) are inside the quantifier ("all VCF contents with phased diploid calls") — there is no
     identifier to reproduce, the code stores the string "None", every *present* identifier is
@@ -411,6 +568,17 @@ theorem copy_equals_source (deep : Bool) (h : Heap) (o : HObj) (hwf : WF h o) :
     view (copyObj deep h o).1 o = view h o := by
   obtain ⟨c1, c2, _, _⟩ := copyObj_spec deep o h hwf
   exact ⟨c2, view_prefix c1 o hwf⟩
+
+open StoreCopy in
+/-- **spec_sound (copies).**  The oracle accepts the copy against its source, and the source after the
+    copy was made against the source before. -/
+theorem copy_spec_sound (deep : Bool) (h : Heap) (o : HObj) (hwf : WF h o)
+    (hd : StoreSpec.DictsNodup (view h o)) :
+    StoreSpec.specObj (view h o) (view (copyObj deep h o).1 (copyObj deep h o).2) = true ∧
+    StoreSpec.specObj (view h o) (view (copyObj deep h o).1 o) = true := by
+  obtain ⟨e1, e2⟩ := copy_equals_source deep h o hwf
+  rw [e1, e2]
+  exact ⟨StoreSpec.specObj_refl _ hd, StoreSpec.specObj_refl _ hd⟩
 
 open StoreCopy in
 /-- **A deep copy shares no buffer with its source**: every array it refers to — directly or
@@ -443,6 +611,22 @@ theorem deepcopy_independent_of_source (h : Heap) (o : HObj) (hwf : WF h o) (ps 
   obtain ⟨_, c2, _, _⟩ := copyObj_spec true o h hwf
   rw [view_pokes _ ps _ (fun p hp hmem => deepcopy_shares_nothing h o hwf p.1 hmem (hps p hp))]
   exact c2
+
+open StoreCopy in
+/-- **What a shallow copy shares.**  `__copy__` rebuilds the object from `copy.copy` of every field;
+    `copy.copy` of a numpy array allocates a fresh buffer, `copy.copy` of a dictionary makes a new
+    dictionary holding the same values.  Hence a shallow copy and its source have in common EXACTLY the
+    arrays that sit inside a dictionary-valued field (`hyperparams`) — every array attribute of the copy
+    itself is a buffer of its own. -/
+theorem shallow_copy_shares_exactly_dict_arrays (h : Heap) (o : HObj) (hwf : WF h o) (a : Addr) :
+    (a ∈ refs (copyObj false h o).2 ∧ a ∈ refs o) ↔ a ∈ dictRefs o := by
+  constructor
+  · rintro ⟨h1, h2⟩
+    rcases shallow_refs o h a h1 with i | i
+    · exact i
+    · exact absurd (hwf a h2) (Nat.not_lt.mpr i)
+  · intro ha
+    exact ⟨dictRefs_in_shallow o h a ha, dictRefs_sub_refs o a ha⟩
 
 open StoreCopy in
 /-- non-vacuity: a genomic model with a nested dictionary laid out on a heap is well formed, its
